@@ -43,8 +43,8 @@ KERNELS = {
     "C18": ["k_formal_args_eval"],
     "C21": ["k_error_and_drop", "k_dest_start"],
     "C26": ["k_str_slice", "k_str_insert", "k_str_index_length"],
-    "C29": ["k_math_bounding", "k_math_percentage", "k_math_clamp", "k_find_extreme"],
-    "C28": ["k_index_of", "k_set_nth", "k_append_join", "k_list_separator", "k_list_index", "k_nth"],
+    "C29": ["k_math_bounding", "k_math_percentage", "k_math_clamp", "k_css_clamp", "k_find_extreme"],
+    "C28": ["k_index_of", "k_set_nth", "k_append_join", "k_list_separator", "k_list_index", "k_nth", "k_get_list"],
     "C31": ["k_deg_mod"],
     "C32": ["k_deg_mod", "k_lighten_darken", "k_fade", "k_complement_grayscale"],
 }
@@ -367,6 +367,8 @@ STRUCTURAL_PROBES = {
         (({"a.scss": '@import "b";\n@import "b";\nx { y: a }\n', "_b.scss": 'x { y: b }\n'}, "a.scss"), "x { y: b; } x { y: b; } x { y: a; }"),
         (({"a.scss": '@use "b";\nx { y: a }\n', "_b.scss": '@use "a";\nx { y: b }\n'}, "a.scss"), "<error>"),
         (({"a.scss": '@import "b";\n@import "c";\n', "_b.scss": '@import "c";\nx { y: b }\n', "_c.scss": 'x { y: c }\n'}, "a.scss"), "x { y: c; } x { y: b; } x { y: c; }"),
+        (({"a.scss": '@import "./b";\n@import "./b";\nx { y: a }\n', "_b.scss": 'x { y: b }\n'}, "a.scss"), "x { y: b; } x { y: b; } x { y: a; }"),
+        (({"a.scss": '@use "./b";\n@use "c";\n', "_b.scss": 'x { y: b }\n', "_c.scss": '@use "./b";\nx { y: c }\n'}, "a.scss"), "x { y: b; } x { y: c; }"),
     ],
     "k_find_file": [
         (({"a.scss": '@use "u";\n', "u.scss": "x { y: plain }\n", "_u.scss": "x { y: partial }\n"}, "a.scss"), "y: plain"),
@@ -382,6 +384,7 @@ STRUCTURAL_PROBES = {
         (({"a.scss": '@use "nope";\n'}, "a.scss"), "<error>"),
         (({"d/a.scss": '@use "u";\n', "d/_u.scss": "x { y: sibling }\n", "_u.scss": "x { y: root }\n"}, "d/a.scss"), "y: sibling"),
     ],
+    "k_lock_loading_extra": [],
     "k_load_module": [
         (({"a.scss": '@use "b";\n@use "c";\nx { y: a }\n', "_b.scss": '@use "c";\nx { y: b }\n', "_c.scss": 'x { y: c }\n'}, "a.scss"), "x { y: c; } x { y: b; } x { y: a; }"),
         (({"a.scss": '@use "b";\nx { y: b.$v }\n', "_b.scss": '$v: 1;\nx { y: b }\n'}, "a.scss"), "x { y: b; } x { y: 1; }"),
@@ -392,6 +395,8 @@ STRUCTURAL_PROBES = {
     "k_math_percentage": [("math.percentage(0.25)", "25%"), ("percentage(1.5)", "150%"), ("math.percentage(-0.07)", "-7%")],
     "k_math_clamp": [("math.clamp(1px, 5px, 3px)", "3px"), ("math.clamp(1px, 0px, 3px)", "1px"), ("math.clamp(1px, 2px, 3px)", "2px"),
                      ("math.clamp(5px, 2px, 3px)", "5px"), ("math.clamp(1in, 1px, 2in)", "1in"), ("math.clamp(0, 0.5, 1)", "0.5")],
+    "k_css_clamp": [("clamp(1px, 5px, 3px)", "3px"), ("clamp(1px, 0px, 3px)", "1px"), ("clamp(1px, 2px, 3px)", "2px"), ("clamp(3px, 2px, 1px)", "3px"),
+                    ("clamp(3, 0, 1)", "3"), ("clamp(1in, 50px, 1cm)", "1in"), ("clamp(1px, 2em, 3px)", "clamp(1px, 2em, 3px)")],
     "k_find_extreme": [("math.max(1, 3, 2)", "3"), ("math.min(1, 3, 2, 0.5)", "0.5"), ("math.max(1px, 1in)", "1in"), ("math.min(1px, 1in)", "1px"),
                        ("math.max(3, 1, 2)", "3"), ("math.min(2, 3, 1)", "1"), ("max(1px, 1em)", "max(1px, 1em)"), ("math.max(2, 2.5, 2.25)", "2.5"),
                        ("math.min(1s, 500ms)", "500ms")],
@@ -408,6 +413,21 @@ STRUCTURAL_PROBES = {
         ("@function f($a-b) { @return $a-b } a { b: f($a_b: 7) }", "b: 7"),
         ("@mixin m($x: 1, $y: $x + 1) { c: $y } a { @include m($x: 4) }", "c: 5"),
         ("$x: 10; @function f($x, $y: $x + 1) { @return $y } a { b: f(1) }", "b: 2"),
+        ("@function boom() { @error \"boom\" } @function f($a: boom()) { @return $a } a { b: f($a: 1) }", "b: 1"),
+        ("@function boom() { @error \"boom\" } @function f($a: boom()) { @return $a } a { b: f(1) }", "b: 1"),
+        ("@function f($a: $undefined) { @return $a } a { b: f($a: 1) }", "b: 1"),
+        ("@mixin m($a: $undefined) { c: $a } a { @include m($a: 3) }", "c: 3"),
+    ],
+    "k_get_list": [
+        ("@function f($args...) { @return append($args, z) } a { b: f(a, b,) }", "b: a, b, z"),
+        ("@function f($args...) { @return length(join($args, y z)) } a { b: f(a, b,) }", "b: 4"),
+        ("@function f($args...) { @return set-nth($args, -1, q) } a { b: f(a, b,) }", "b: a, q"),
+        ("@function f($args...) { @return append($args, z) } a { b: f(a, b) }", "b: a, b, z"),
+        ("@function f($args...) { @return inspect(append($args, z)) } a { b: f(a, $k: v) }", "b: a, k v, z"),
+        ("a { b: inspect(append((x: 1, y: 2), z)) }", "b: x 1, y 2, z"),
+        ("a { b: inspect(join((), a b)) }", "b: a b"),
+        ("a { b: append(solo, z) }", "b: solo z"),
+        ("a { b: append([a, b], c) }", "b: [a, b, c]"),
     ],
     "k_nth": [("nth(a b c, 2)", "b"), ("nth(a b c, -1)", "c"), ("inspect(nth((x: 1, y: 2), 2))", "y 2"), ("inspect(nth((x: 1, y: 2), -2))", "x 1"), ("nth(solo, 1)", "solo"),
               ("nth(solo, -1)", "solo"), ("nth((a, b), 1)", "a"), ("nth([a b], 2)", "b"), ("inspect(nth((a b) (c d), 2))", "c d")],
@@ -457,6 +477,8 @@ STRUCTURAL_PROBES["k_use_with"] = {
         (({"a.scss": '@use "lib" with ($v: 1);\nx { y: lib.$v }\n', "_lib.scss": "$v: 2 !default;\n"}, "a.scss"), "y: 1"),
         (({"a.scss": '@use "lib" with ($v: 1, $w: 5);\nx { y: lib.$v + lib.$w }\n', "_lib.scss": "$v: 2 !default;\n$w: 3 !default;\n"}, "a.scss"), "y: 6"),
         (({"a.scss": '@use "lib" with ($v: 1, $v: 3);\nx { y: lib.$v }\n', "_lib.scss": "$v: 2 !default;\n"}, "a.scss"), "<error>"),
+        (({"a.scss": '@use "lib" with ($v: null, $v: 3);\nx { y: lib.$v }\n', "_lib.scss": "$v: 2 !default;\n"}, "a.scss"), "<error>"),
+        (({"a.scss": '@forward "lib" with ($v: null, $v: 3);\n', "_lib.scss": "$v: 2 !default;\n"}, "a.scss"), "<error>"),
         (({"a.scss": '@use "sass:math" with ($pi: 3);\nx { y: math.$pi }\n'}, "a.scss"), "<error>"),
         (({"a.scss": '@use "lib";\nx { y: lib.$v }\n', "_lib.scss": "$v: 2 !default;\n"}, "a.scss"), "y: 2"),
     ],
@@ -479,7 +501,9 @@ STRUCTURAL_PROBES["k_module_init"] = [
     (({"a.scss": '@forward "lib";\n.main { c: d }\n', "_lib.scss": "/* hello */\n.lib { a: b }\n"}, "[compressed]a.scss"), ".lib{a:b}.main{c:d}"),
     (({"a.scss": '@use "lib";\n.main { c: lib.$v }\n', "_lib.scss": "$v: 1 + 1;\n"}, "[compressed]a.scss"), ".main{c:2}"),
 ]
-STRUCTURAL_PROBES["k_do_find_file"] = STRUCTURAL_PROBES["k_find_file"]
+_FLAKY = {"a.scss": '@use "lib";\n@import "old";\na { b: lib.$x; c: $y }\n', "_lib.scss": "$x: 1;\n", "_old.scss": "$y: 2;\n"}
+STRUCTURAL_PROBES["k_do_find_file"] = STRUCTURAL_PROBES["k_find_file"] + [((_FLAKY, "[fail-lookup %d]a.scss" % k), "<error>") for k in range(6)] + [
+    ((_FLAKY, "[fail-lookup 99]a.scss"), "a { b: 1; c: 2; }")]
 STRUCTURAL_PROBES["k_fsloader_find"] = STRUCTURAL_PROBES["k_find_file"]
 
 
@@ -500,7 +524,11 @@ def structural_probe(kernel, label=""):
             files, entry = src
             comp = entry.startswith("[compressed]")
             entry = entry[len("[compressed]"):] if comp else entry
-            outs = [native.run_files(files, entry, prof, comp) for prof in ("dev", "release")]
+            fail = None
+            m_fail = re.match(r"\[fail-lookup (\d+)\](.*)", entry)
+            if m_fail:
+                fail, entry = int(m_fail.group(1)), m_fail.group(2)
+            outs = [native.run_files(files, entry, prof, comp, fail) for prof in ("dev", "release")]
             vals = [(" ".join(r["message"].split()) if r["outcome"] == "ok" else "<%s>" % r["outcome"]) for r in outs]
             if any(want not in v for v in vals):
                 diffs.append({"files": files, "entry": entry, "want": want, "got": vals})
